@@ -8,12 +8,15 @@ import (
 	"context"
 	"fmt"
 	lunarcontext "lunar/engine/streams/lunar-context"
+	publictypes "lunar/engine/streams/public-types"
 	"os"
 	"sort"
 	"strings"
 	"testing"
 	"time"
 
+	"lunar/engine/streams/processors"
+	streamtypes "lunar/engine/streams/types"
 	contextmanager "lunar/toolkit-core/context-manager"
 	rt "lunar/toolkit-core/verifrt"
 	"verifharness/eng"
@@ -24,6 +27,7 @@ type arrival struct {
 	Name  string
 	Group string // priority group header value: "hi" (1), "lo" (2)
 	Delay time.Duration
+	Via   string // "" = the (first) queue flow; "b" = the second queue flow of a TwoFlows scenario
 }
 
 type scenario struct {
@@ -34,6 +38,9 @@ type scenario struct {
 	TTL       time.Duration
 	Arrivals  []arrival
 	Shutdown  time.Duration // 0 = no shutdown; otherwise the instant the engine context is cancelled
+	// TwoFlows: two flows (h.com/a/*, h.com/b/*), each with its own Queue processor, attached
+	// to the same quota
+	TwoFlows bool
 }
 
 func prio(g string) int {
@@ -54,10 +61,12 @@ func quotaYAML(sc scenario) string {
 	return fmt.Sprintf("quotas:\n  - id: Q\n    filter:\n      url: h.com/*\n    strategy:\n      fixed_window:\n        max: %d\n        interval: %d\n        interval_unit: second\n", sc.QuotaMax, int(sc.window()/time.Second))
 }
 
-func flowYAML(sc scenario) string {
-	return fmt.Sprintf(`name: qflow
+func flowYAML(sc scenario) string { return flowYAMLFor(sc, "qflow", "h.com/*") }
+
+func flowYAMLFor(sc scenario, name, url string) string {
+	return fmt.Sprintf(`name: %s
 filter:
-  url: h.com/*
+  url: %s
 processors:
   Qu:
     processor: Queue
@@ -111,7 +120,7 @@ flow:
         stream:
           name: globalStream
           at: end
-`, sc.QueueSize, int(sc.TTL/time.Second))
+`, name, url, sc.QueueSize, int(sc.TTL/time.Second))
 }
 
 type reqObs struct {
@@ -153,7 +162,27 @@ func build(sc scenario) *mc.SchedOpts {
 		Body: func(x *mc.Exec) {
 			ctx, cancel := context.WithCancel(context.Background())
 			contextmanager.Get().WithContext(ctx)
-			s, _, err := eng.NewStream(eng.Files{Flows: map[string]string{"q.yaml": flowYAML(sc)}, Quotas: map[string]string{"q.yaml": quotaYAML(sc)}})
+			flows := map[string]string{"q.yaml": flowYAML(sc)}
+			var created []string
+			if sc.TwoFlows {
+				rekey := func(y, key string) string {
+					return strings.ReplaceAll(strings.ReplaceAll(y, "  Qu:\n", "  "+key+":\n"), "name: Qu\n", "name: "+key+"\n")
+				}
+				flows = map[string]string{"qa.yaml": rekey(flowYAMLFor(sc, "qflowA", "h.com/a/*"), "QuA"), "qb.yaml": rekey(flowYAMLFor(sc, "qflowB", "h.com/b/*"), "QuB")}
+				// the engine creates the processors of its flows in Go map order; the arrivals
+				// are addressed to "the queue processor created first / second", so that the
+				// execution is the same function of the schedule whatever that order is
+				processors.VerifInstall(nil, func(md *streamtypes.ProcessorMetaData, p streamtypes.ProcessorI) streamtypes.ProcessorI {
+					if strings.HasPrefix(md.Name, "Qu") {
+						created = append(created, md.Name)
+					}
+					return p
+				})
+			}
+			s, _, err := eng.NewStream(eng.Files{Flows: flows, Quotas: map[string]string{"q.yaml": quotaYAML(sc)}})
+			if sc.TwoFlows {
+				processors.VerifInstall(nil, nil)
+			}
 			if err != nil {
 				panic("engine did not load: " + err.Error())
 			}
@@ -168,7 +197,18 @@ func build(sc scenario) *mc.SchedOpts {
 						rt.PointL(rt.OpHarness, 0, "arrives", nil)
 					}
 					ro.started, ro.startAt = true, x.Now()
-					v := eng.OnRequest(s, eng.Req{ID: ro.a.Name, URL: "h.com/a", Headers: map[string]string{"x-prio": ro.a.Group}})
+					url := "h.com/a/1"
+					if sc.TwoFlows {
+						first, second := "h.com/a/1", "h.com/b/1"
+						if len(created) > 0 && created[0] == "QuB" {
+							first, second = second, first
+						}
+						url = first
+						if ro.a.Via == "b" {
+							url = second
+						}
+					}
+					v := eng.OnRequest(s, eng.Req{ID: ro.a.Name, URL: url, Headers: map[string]string{"x-prio": ro.a.Group}})
 					ro.returned, ro.allowed, ro.returnAt, ro.verdictErr = true, !v.Early && v.Err == "", x.Now(), v.Err
 					x.Logf("%s(%s) -> %s after %v", ro.a.Name, ro.a.Group, v, ro.returnAt-ro.startAt)
 				})
@@ -219,6 +259,13 @@ func invariant(x *mc.Exec, sc scenario) {
 func final(x *mc.Exec, sc scenario) (string, string) {
 	st := x.Vals["st"].(*state)
 	if x.Horizon {
+		// the execution was cut at its horizon: the only thing that can be judged is a request
+		// that is already overdue (the horizon lies 1.5 s of virtual time after the last TTL)
+		for _, ro := range st.reqs {
+			if ro.started && !ro.returned && !st.down && x.Now()-ro.startAt > sc.TTL+4*tick {
+				return "NO-VERDICT", fmt.Sprintf("%s reached the queue processor at %v and has no verdict at %v (ttl %v)", ro.a.Name, ro.startAt, x.Now(), sc.TTL)
+			}
+		}
 		return "", ""
 	}
 	var allowed []*reqObs
@@ -301,20 +348,39 @@ func final(x *mc.Exec, sc scenario) (string, string) {
 
 func scenarios(thorough bool) []scenario {
 	sc := []scenario{
-		{Name: "two-arrivals-size1", QuotaMax: 1, QueueSize: 1, TTL: time.Second, Arrivals: []arrival{{"A", "lo", 0}, {"B", "lo", 0}}},
-		{Name: "lo-then-hi", QuotaMax: 1, QueueSize: 2, TTL: 2 * time.Second, Arrivals: []arrival{{"L", "lo", 0}, {"H", "hi", time.Millisecond}}},
-		{Name: "earlier-then-later-same-priority", QuotaMax: 2, QueueSize: 2, TTL: time.Second, Arrivals: []arrival{{"A", "lo", 0}, {"B", "lo", 300 * time.Millisecond}}},
-		{Name: "timeout-then-refill-size1", QuotaW: 3, QuotaMax: 1, QueueSize: 1, TTL: time.Second, Arrivals: []arrival{{"R0", "lo", 0}, {"A", "lo", 150 * time.Millisecond}, {"B", "lo", 1300 * time.Millisecond}, {"C", "lo", 1400 * time.Millisecond}}},
-		{Name: "shutdown-with-waiter", QuotaMax: 1, QueueSize: 2, TTL: 2 * time.Second, Arrivals: []arrival{{"A", "lo", 0}, {"B", "lo", time.Millisecond}}, Shutdown: 250 * time.Millisecond},
+		{Name: "two-arrivals-size1", QuotaMax: 1, QueueSize: 1, TTL: time.Second, Arrivals: []arrival{{Name: "A", Group: "lo", Delay: 0}, {Name: "B", Group: "lo", Delay: 0}}},
+		{Name: "lo-then-hi", QuotaMax: 1, QueueSize: 2, TTL: 2 * time.Second, Arrivals: []arrival{{Name: "L", Group: "lo", Delay: 0}, {Name: "H", Group: "hi", Delay: time.Millisecond}}},
+		{Name: "earlier-then-later-same-priority", QuotaMax: 2, QueueSize: 2, TTL: time.Second, Arrivals: []arrival{{Name: "A", Group: "lo", Delay: 0}, {Name: "B", Group: "lo", Delay: 300 * time.Millisecond}}},
+		{Name: "timeout-then-refill-size1", QuotaW: 3, QuotaMax: 1, QueueSize: 1, TTL: time.Second, Arrivals: []arrival{{Name: "R0", Group: "lo", Delay: 0}, {Name: "A", Group: "lo", Delay: 150 * time.Millisecond}, {Name: "B", Group: "lo", Delay: 1300 * time.Millisecond}, {Name: "C", Group: "lo", Delay: 1400 * time.Millisecond}}},
+		// a waiter whose TTL ends exactly at one of the loop's attempts, while the quota is
+		// still exhausted (window 3 s): expiry and a blocked attempt on the same request coincide
+		{Name: "ttl-expiry-during-blocked-attempt", QuotaW: 3, QuotaMax: 1, QueueSize: 1, TTL: time.Second, Arrivals: []arrival{{Name: "R0", Group: "lo", Delay: 0}, {Name: "A", Group: "lo", Delay: 0}}},
+		{Name: "shutdown-with-waiter", QuotaMax: 1, QueueSize: 2, TTL: 2 * time.Second, Arrivals: []arrival{{Name: "A", Group: "lo", Delay: 0}, {Name: "B", Group: "lo", Delay: time.Millisecond}}, Shutdown: 250 * time.Millisecond},
 		// two waiters of one priority behind an admitted request: the first waiter is popped
 		// while the quota is still blocked and put back (it must keep its place)
-		{Name: "fifo-three-same-priority", QuotaMax: 1, QueueSize: 3, TTL: 3 * time.Second, Arrivals: []arrival{{"A", "lo", 0}, {"X", "lo", time.Millisecond}, {"Y", "lo", 2 * time.Millisecond}}},
+		{Name: "fifo-three-same-priority", QuotaMax: 1, QueueSize: 3, TTL: 3 * time.Second, Arrivals: []arrival{{Name: "A", Group: "lo", Delay: 0}, {Name: "X", Group: "lo", Delay: time.Millisecond}, {Name: "Y", Group: "lo", Delay: 2 * time.Millisecond}}},
 	}
 	if thorough {
 		sc = append(sc,
-			scenario{Name: "three-arrivals-size2", QuotaMax: 1, QueueSize: 2, TTL: time.Second, Arrivals: []arrival{{"A", "lo", 0}, {"B", "hi", 0}, {"C", "lo", time.Millisecond}}})
+			scenario{Name: "three-arrivals-size2", QuotaMax: 1, QueueSize: 2, TTL: time.Second, Arrivals: []arrival{{Name: "A", Group: "lo", Delay: 0}, {Name: "B", Group: "hi", Delay: 0}, {Name: "C", Group: "lo", Delay: time.Millisecond}}})
 	}
 	return sc
+}
+
+// instants at which a time-to-live of the scenario ends (one per 100 ms slot), rounded down to
+// the loop's 100 ms grid: the window explored is the slot the expiry falls into
+func instants(sc scenario) []time.Duration {
+	seen := map[time.Duration]bool{}
+	var out []time.Duration
+	for _, a := range sc.Arrivals {
+		d := (a.Delay + sc.TTL) / tick * tick
+		if !seen[d] {
+			seen[d] = true
+			out = append(out, d)
+		}
+	}
+	sort.Slice(out, func(i, j int) bool { return out[i] < out[j] })
+	return out
 }
 
 type replay struct {
@@ -328,6 +394,19 @@ func TestCheck(t *testing.T) {
 		var rp replay
 		if err := mc.LoadReplay(f, &rp); err != nil {
 			t.Fatal(err)
+		}
+		if rp.Scenario == "queue-level-two" {
+			var qr queueReplay
+			if err := mc.LoadReplay(f, &qr); err != nil {
+				t.Fatal(err)
+			}
+			rr := mc.New("C06", "exploration")
+			twoQueuesCase(t, rr, qr.Priorities)
+			fmt.Printf("two Queue processors on one quota, arrivals %v: violations=%d\n", qr.Priorities, rr.NumFindings())
+			if rr.NumFindings() > 0 {
+				t.Fail()
+			}
+			return
 		}
 		if rp.Scenario == "queue-level" {
 			var qr queueReplay
@@ -343,7 +422,7 @@ func TestCheck(t *testing.T) {
 			return
 		}
 		for _, sc := range scenarios(true) {
-			if sc.Name == rp.Scenario {
+			if sc.Name == strings.SplitN(rp.Scenario, "@", 2)[0] {
 				if k := mc.ReplaySchedule(t, build(sc), rp.Choices); k != "" {
 					t.Fail()
 				}
@@ -365,18 +444,30 @@ func TestCheck(t *testing.T) {
 	for _, sc := range scenarios(r.Thorough()) {
 		names = append(names, sc.Name)
 	}
-	r.Rule = fmt.Sprintf("all schedules of scenarios %s (arrival goroutines with priority groups through a real engine's Queue processor with its process / TTL / removal goroutines, quota 1 per second, optional shutdown) with <=%d preemptions and <=%d early time steps, time quantum 100 ms; scheduling decisions at sync operations of processors/queue, the in-memory shared queue and the quota; distinct = observation logs (verdicts and waiting times)", strings.Join(names, ","), pre, et)
+	r.Rule = fmt.Sprintf("all schedules of scenarios %s (arrival goroutines with priority groups through a real engine's Queue processor with its process / TTL / removal goroutines, quota 1 per second, optional shutdown) with <=%d preemptions and <=%d early time steps, time quantum 100 ms, once from the start under an execution cap and once per 100 ms slot in which a time-to-live ends, with the deviations confined to that slot; scheduling decisions at sync operations of processors/queue, the in-memory shared queue and the quota; distinct = observation logs (verdicts and waiting times)", strings.Join(names, ","), pre, et)
 	r.Assume("virtual time; native channel operations are not split", "admission order is observed as the order in which waiters' verdicts become available")
 	if r.Parallel(t, 16) {
 		r.Finish(t)
 		return
 	}
 	queueLevel(t, r)
+	twoQueues(t, r)
 	for _, sc := range scenarios(r.Thorough()) {
 		o := build(sc)
 		o.MaxPreempt, o.MaxEarlyT = pre, et
 		o.MaxExecutions = int64(mc.Pick(r, 2500, 60000))
 		mc.Explore(t, r, o)
+		// the same scenario explored around each instant at which a time-to-live ends: all
+		// schedules (same bounds) whose deviations from the default fall into that 100 ms
+		// slot; every other decision takes the default.
+		for _, at := range instants(sc) {
+			o := build(sc)
+			o.Name = fmt.Sprintf("%s@%v", sc.Name, at)
+			o.MaxPreempt, o.MaxEarlyT = pre, et
+			o.BranchFrom, o.BranchUntil = at, at+tick-time.Nanosecond
+			o.MaxExecutions = int64(mc.Pick(r, 4000, 200000))
+			mc.Explore(t, r, o)
+		}
 	}
 	r.Finish(t)
 }
@@ -420,6 +511,77 @@ func queueLevel(t *testing.T, r *mc.Run) {
 			}
 			if k < 0 {
 				break
+			}
+		}
+	}
+}
+
+// twoQueues: two Queue processors attached to the same quota obtain their waiting queues the
+// way the processor's constructor does (SharedMemory.NewQueue(quota id, ttl)) from one shared
+// memory.  Every assignment of n <= 5 (thorough 6) arrivals with priorities {1,2} to the two
+// processors: each queue must hand out exactly its own requests in (priority, arrival) order.
+func twoQueues(t *testing.T, r *mc.Run) {
+	maxN := mc.Pick(r, 5, 6)
+	idx := 1 << 24
+	for n := 2; n <= maxN; n++ {
+		mc.Sequences(4, n, func(l []int) bool {
+			if len(l) != n {
+				return true
+			}
+			idx++
+			if !r.Mine(idx) {
+				return true
+			}
+			twoQueuesCase(t, r, l)
+			return true
+		})
+	}
+}
+
+func twoQueuesCase(t *testing.T, r *mc.Run, l []int) {
+	n := len(l)
+	{
+		{
+			var got, want [2][]string
+			mc.Bubble(t, func(t *testing.T) {
+				st := lunarcontext.NewMemoryState[string]()
+				qs := [2]publictypes.SharedQueueI{st.NewQueue("Q", time.Minute), st.NewQueue("Q", time.Minute)}
+				type w struct {
+					id   string
+					p, i int
+				}
+				var live [2][]w
+				for i, x := range l {
+					which, p := x%2, x/2+1
+					id := fmt.Sprintf("r%d", i)
+					qs[which].Enqueue(id, float64(p))
+					live[which] = append(live[which], w{id, p, i})
+					time.Sleep(time.Microsecond)
+				}
+				for k := 0; k < 2; k++ {
+					sort.SliceStable(live[k], func(i, j int) bool {
+						if live[k][i].p != live[k][j].p {
+							return live[k][i].p < live[k][j].p
+						}
+						return live[k][i].i < live[k][j].i
+					})
+					for _, x := range live[k] {
+						want[k] = append(want[k], x.id)
+					}
+					for i := 0; i <= n; i++ {
+						id := qs[k].DequeueIfValueRelevant()
+						if id == "" {
+							break
+						}
+						got[k] = append(got[k], id)
+					}
+				}
+			})
+			r.Add("queue_level_cases", 1)
+			r.NonTrivial(fmt.Sprintf("two-queues|%v", l))
+			if fmt.Sprint(got) != fmt.Sprint(want) {
+				r.Violation("ORDER:queue-level:two-processors-one-quota", fmt.Sprintf("two Queue processors on one quota: arrivals (processor, priority) %v: the processors' queues handed out %v, expected %v", l, got, want),
+					queueReplay{Scenario: "queue-level-two", Priorities: append([]int{}, l...)})
 			}
 		}
 	}
